@@ -893,6 +893,13 @@ impl Session {
             stream_id,
             data.len()
         );
+        // One frame carries at most 65535 payload bytes (u16 length field):
+        // a larger chunk goes out as several consecutive frames.
+        let mut data = data;
+        while data.len() > u16::MAX as usize {
+            let head = data.split_to(u16::MAX as usize);
+            self.write_frame(Frame::data(stream_id, head)).await?;
+        }
         let frame = Frame::data(stream_id, data);
         self.write_frame(frame).await
     }
